@@ -32,7 +32,12 @@ def stmt_line(marker, structured, rnd_bits):
 
 def gen_history(rnd, nact):
     """A history is a list of explicit, replayable actions."""
-    acts = [("add", 0, 0.0, rnd.randrange(1 << 30)), ("add", 0, 0.5, rnd.randrange(1 << 30))]
+    acts = []
+    if rnd.random() < 0.1:
+        # the project is near the top of the ID range (a lock written by an earlier life of the project): exhaustion is
+        # reached within the history, with faults and kills around it
+        acts.append(("seed_lock", core.U32MAX - rnd.randrange(0, 14)))
+    acts += [("add", 0, 0.0, rnd.randrange(1 << 30)), ("add", 0, 0.5, rnd.randrange(1 << 30))]
     for _ in range(nact):
         r = rnd.random()
         if r < 0.03:
@@ -123,7 +128,11 @@ def run_history(built, acts, structured, record=False):
         for step, a in enumerate(acts):
             kind = a[0]
             note = None
-            if kind == "add":
+            if kind == "seed_lock":
+                with open(w.lockp, "w") as f:
+                    f.write(core.lock_text(a[1]))
+                stats["near_top"] = 1
+            elif kind == "add":
                 _, fi, pos, bits = a
                 rel = "src/f%d.rs" % fi
                 lines = w.files.setdefault(rel, [b"// file %d\n" % fi, b"fn f() {\n", b"}\n"])
@@ -294,6 +303,7 @@ def work(job):
     res["counters"]["runs"] = stats["runs"]
     res["counters"]["histories_with_delete_highest_then_insert"] = int(stats["del_highest_then_insert"] > 0)
     res["counters"]["max_ghost_size"] = 0
+    res["counters"]["histories_near_top_of_id_range"] = stats.get("near_top", 0)
     for k, n in stats["abnormal"].items():
         res["counters"]["abnormal_end_fired_" + k] = n
     if stats["del_highest_then_insert"] or stats["abnormal"]:
